@@ -365,7 +365,9 @@ class Ref:
             if k == "WeightedString":
                 return None if (type(v) is str and len(v) == len(r[1]) and all(ch in r[2] for ch in v)) else k
             if k == "IntervalRange":
-                ok = (type(v) is tuple and len(v) == 2 and r[1] <= v[1] - v[0] <= r[2] and v[1] <= r[3] and v[0] >= 0)
+                # (documented predicate: range size within [min, max] and an end not beyond the top limit; that generate() also
+                # starts at >= 0 is not part of it, and the stack machine may select any tuple that validate() accepts)
+                ok = (type(v) is tuple and len(v) == 2 and r[1] <= v[1] - v[0] <= r[2] and v[1] <= r[3])
                 return None if ok else k
             if k == "Dependent3":
                 a, _b = r[1].split(",")
